@@ -585,6 +585,16 @@ def m0_core():
         m.method("Op", "res_std_%s" % nm, "ref", [], Res(o, e, "std"))
         m.method("Op", "res_dip_%s" % nm, "ref", [], Res(o, e, "diplomat"))
     m.method("Op", "res_box_unit", None, [], Res(OpaqueBox("Op"), None))
+    # out-structs in every output position (plain return, Option, both Result arms)
+    m.add(StructDef("OutPlain", [("a", P("u16")), ("b", P("i64")), ("c", EnumT("Small"))], out=True))
+    m.method("Op", "out_plain", None, [], StructT("OutPlain"))
+    m.method("Op", "opt_out_plain", None, [], Opt(StructT("OutPlain"), "std"))
+    m.method("Op", "res_std_u8_outp", None, [], Res(P("u8"), StructT("OutPlain"), "std"))
+    m.method("Op", "res_dip_u8_outp", None, [], Res(P("u8"), StructT("OutPlain"), "diplomat"))
+    m.method("Op", "res_std_outp_en", None, [], Res(StructT("OutPlain"), EnumT("En"), "std"))
+    m.method("Op", "res_std_unit_outp", None, [], Res(None, StructT("OutPlain"), "std"))
+    m.method("Op", "res_std_outs_u8", "ref", [], Res(StructT("OutS"), P("u8"), "std"))
+    m.method("Op", "res_std_u8_outs", "ref", [], Res(P("u8"), StructT("OutS"), "std"))
     # struct / enum methods with by-value self
     m.method("Pad", "take_self", "val", [("k", P("u8"))], P("u64"))
     m.method("En", "en_self", "val", [], P("i32"))
@@ -695,6 +705,10 @@ def random_module(seed, idx):
             fields.append(("f%d" % k, t))
         structs.append(m.add(StructDef("S%d" % i, fields)))
     nonborrow = structs
+    outfields = [("o%d" % k, scalar()) for k in range(rnd.randint(1, 3))]
+    if rnd.random() < 0.5:
+        outfields.insert(rnd.randint(0, len(outfields)), ("bx", OpaqueBox("Ob", optional=rnd.random() < 0.5)))
+    m.add(StructDef("OutR", outfields, out=True))
     def val():
         r = rnd.random()
         if r < 0.45:
@@ -715,14 +729,16 @@ def random_module(seed, idx):
         r = rnd.random()
         if r < 0.1:
             return None
-        if r < 0.5:
+        if r < 0.45:
             return val()
+        if r < 0.5:
+            return StructT("OutR")
         if r < 0.6:
             return OpaqueBox("Ob", optional=rnd.random() < 0.5)
         if r < 0.65:
             return Ordering()
-        o = None if rnd.random() < 0.2 else (val() if rnd.random() < 0.8 else OpaqueBox("Ob"))
-        e = None if rnd.random() < 0.3 else val()
+        o = None if rnd.random() < 0.2 else (val() if rnd.random() < 0.7 else (OpaqueBox("Ob") if rnd.random() < 0.5 else StructT("OutR")))
+        e = None if rnd.random() < 0.3 else (val() if rnd.random() < 0.8 else StructT("OutR"))
         if isinstance(o, Opt):
             o = o.inner
         if isinstance(e, Opt):
